@@ -358,17 +358,29 @@ func checkC13R(cc any) *ev.Verdict {
 		return v.Failf("tx-json", "%s value %q: account metadata text %q but transaction metadata JSON %s", c.Type, c.Text, text1, r1.TxMetaJSON["k"])
 	}
 	// script 2: read it back, through meta() and through a plain variable
-	for _, via := range []string{"meta", "plain"} {
+	for _, via := range []string{"meta", "meta among other keys of the same account", "plain"} {
 		s2 := &gen.ExecCase{Script: &gen.Script{}, Vars: map[string]string{}, Meta: map[string]map[string]string{}}
 		if via == "meta" {
 			s2.Script.Vars = []gen.VarDecl{{Type: c.Type, Name: "w", Origin: &gen.Call{Fn: "meta", Args: []*gen.Expr{gen.Acct("holder"), gen.Str("k")}}}}
 			s2.Meta["holder"] = map[string]string{"k": text1}
+		} else if via != "plain" {
+			// the value is one of several entries of the account, each read by its own variable
+			s2.Script.Vars = []gen.VarDecl{
+				{Type: "string", Name: "before", Origin: &gen.Call{Fn: "meta", Args: []*gen.Expr{gen.Acct("holder"), gen.Str("a")}}},
+				{Type: c.Type, Name: "w", Origin: &gen.Call{Fn: "meta", Args: []*gen.Expr{gen.Acct("holder"), gen.Str("k")}}},
+				{Type: "number", Name: "after", Origin: &gen.Call{Fn: "meta", Args: []*gen.Expr{gen.Acct("holder"), gen.Str("z")}}},
+			}
+			s2.Meta["holder"] = map[string]string{"a": "some text", "k": text1, "z": "42"}
+			s2.Script.Stmts = []*gen.Stmt{
+				{Kind: gen.StCall, Call: &gen.Call{Fn: "set_tx_meta", Args: []*gen.Expr{gen.Str("before"), gen.Var("before")}}},
+				{Kind: gen.StCall, Call: &gen.Call{Fn: "set_tx_meta", Args: []*gen.Expr{gen.Str("after"), gen.Var("after")}}},
+			}
 		} else {
 			s2.Script.Vars = []gen.VarDecl{{Type: c.Type, Name: "w"}}
 			s2.Vars["w"] = text1
 		}
 		w := gen.Var("w")
-		s2.Script.Stmts = []*gen.Stmt{{Kind: gen.StCall, Call: &gen.Call{Fn: "set_account_meta", Args: []*gen.Expr{gen.Acct("holder2"), gen.Str("k2"), w}}}}
+		s2.Script.Stmts = append(s2.Script.Stmts, &gen.Stmt{Kind: gen.StCall, Call: &gen.Call{Fn: "set_account_meta", Args: []*gen.Expr{gen.Acct("holder2"), gen.Str("k2"), w}}})
 		// operational use
 		world := &gen.Src{Kind: gen.SAcct, Addr: gen.Acct("world")}
 		toD := &gen.Dst{Kind: gen.DAcct, Addr: gen.Acct("d")}
